@@ -56,21 +56,37 @@ def S(chars):
     return ''.join(chars)
 
 
+def put(path, text):
+    """Overwrite in place (O_TRUNC on a non-empty ext4 file is slow here)."""
+    data = text.encode()
+    fd = os.open(path, os.O_WRONLY | os.O_CREAT, 0o600)
+    try:
+        os.pwrite(fd, data, 0)
+        os.ftruncate(fd, len(data))
+    finally:
+        os.close(fd)
+
+
 # --------------------------------------------------------------------------
 # keys
 # --------------------------------------------------------------------------
 
 _k = {}
 
+# real ed25519 public keys standing for the key ids (generated once, fixed so
+# that replay files stay meaningful)
+_PUB = {
+    'k1': 'ssh-ed25519 AAAAC3NzaC1lZDI1NTE5AAAAIHRetSVTYTVVaOmnDzz5kSn9yZiUxCqpVr2ahfupM6Ay',
+    'k2': 'ssh-ed25519 AAAAC3NzaC1lZDI1NTE5AAAAIIoJ7ftdUYkpTTM2aqsSzSynQiBMFjUVy3D2XPra08K4',
+    'k3': 'ssh-ed25519 AAAAC3NzaC1lZDI1NTE5AAAAIDlj5l7LQMzH7xjecffStZVUEhY+Wux97Qa+wecf0NBB',
+}
+
 
 def keys():
     """Real keys standing for the key ids of the specification."""
     if not _k:
-        for kid in ('k1', 'k2', 'k3'):
-            priv = asyncssh.generate_private_key('ssh-ed25519')
-            pub = priv.convert_to_public()
-            text = ' '.join(pub.export_public_key().decode().split()[:2])
-            _k[kid] = (pub, text)
+        for kid, text in _PUB.items():
+            _k[kid] = (asyncssh.import_public_key(text), text)
         _k['by_data'] = {v[0].public_data: k for k, v in _k.items()}
     return _k
 
@@ -206,13 +222,11 @@ def kh_run(text, query, api, workdir=None):
             r = asyncssh.import_known_hosts(text).match(host, addr, port)
         elif api == 'file':
             path = os.path.join(workdir, 'known_hosts')
-            with open(path, 'w') as f:
-                f.write(text)
+            put(path, text)
             r = asyncssh.match_known_hosts(path, host, addr, port)
         else:
             path = os.path.join(workdir, 'known_hosts')
-            with open(path, 'w') as f:
-                f.write(text)
+            put(path, text)
             r = asyncssh.read_known_hosts([path]).match(host, addr, port)
     except Exception as exc:            # pylint: disable=broad-except
         return ('exc', type(exc).__name__, str(exc)[:120])
@@ -261,8 +275,7 @@ def tok_run(text, api='object', workdir=None):
             ak = asyncssh.import_authorized_keys(text)
         else:
             path = os.path.join(workdir, 'authorized_keys')
-            with open(path, 'w') as f:
-                f.write(text)
+            put(path, text)
             ak = asyncssh.read_authorized_keys(path)
     except Exception as exc:            # pylint: disable=broad-except
         return ('err', type(exc).__name__, str(exc)[:120])
@@ -292,8 +305,7 @@ def ak_run(menu, text, q, api='object', workdir=None):
             ak = asyncssh.import_authorized_keys(text)
         else:
             path = os.path.join(workdir, 'authorized_keys')
-            with open(path, 'w') as f:
-                f.write(text)
+            put(path, text)
             ak = asyncssh.read_authorized_keys([path])
         p = menu.princ[princ - 1]
         principals = None if p == 'none' else [S(x) for x in p]
